@@ -69,6 +69,39 @@ BMAD = {
     "kicker": ([], ["l"], ["hkick", "vkick"], []),   # not known to the converter: Drift
 }
 TABLES = {"elegant": ELEGANT, "bmad": BMAD}
+
+# Repairs of the importer that the generator follows (set by props/c13.py from the status of the findings in known_findings.json
+# and a probe of the code): False = the code as it was (the generator stays out of the defect's region, as before the repair),
+# True = repaired (the generator EXERCISES the repaired behaviour and the Coq model is the repaired transcription).
+FIX_KEYS = ["F18a", "F18b", "F40", "F41", "F42", "F43"]
+REPAIRED = {k: False for k in FIX_KEYS}
+STYLE_COUNTS = {}
+
+
+def set_repaired(state):
+    for k in FIX_KEYS:
+        REPAIRED[k] = bool(state.get(k, False))
+
+
+def _style_count(key):
+    STYLE_COUNTS[key] = STYLE_COUNTS.get(key, 0) + 1
+
+
+def tables(flavour):
+    """The language table of a flavour under the current repairs."""
+    if flavour != "bmad":
+        return ELEGANT
+    t = dict(BMAD)
+    if REPAIRED["F18b"]:                      # hkicker / vkicker understand their own l and kick
+        t["hkicker"] = ([], ["l", "kick"], [], ["type", "alias"])
+        t["vkicker"] = ([], ["l", "kick"], [], ["type", "alias"])
+    req, opt, ign, sig = t["sbend"]
+    if REPAIRED["F43"]:                       # e1 is optional (default 0)
+        req, opt = [p for p in req if p != "e1"], opt + ["e1"]
+    if REPAIRED["F18a"]:                      # g is a strength (angle = g * l when no angle is given), no longer an ignored number
+        opt, ign = opt + ["g"], [p for p in ign if p != "g"]
+    t["sbend"] = (req, opt, ign, sig)
+    return t
 RESERVED = set(KEYWORDS + CONSTS + ["sqrt", "asin", "sin", "cos", "abs", "abs_func", "line", "use", "call", "overlay", "inf", "nan",
                                     "infinity", "__use__"]) | set(ELEGANT) | set(BMAD)
 
@@ -252,8 +285,11 @@ def render_stmt(s, rng=None):
     if k == "def":
         t = s[1] + sp() + ":" + sp() + s[2]
         for n, (p, e) in enumerate(s[3]):
-            # no white space between the type and the first comma: define_element's regex rejects it (known finding F40)
-            t += ("" if n == 0 else sp()) + "," + sp() + p + sp() + "=" + sp() + render_expr(e, rng)
+            # no white space between the type and the first comma while define_element's regex rejects it (finding F40)
+            lead = sp() if (n > 0 or REPAIRED["F40"]) else ""
+            if n == 0 and lead:
+                _style_count("style_space_before_first_comma")
+            t += lead + "," + sp() + p + sp() + "=" + sp() + render_expr(e, rng)
         return t
     if k == "prop":
         tgt = s[1][1] if s[1][0] == "name" else s[1][1] + "::" + s[1][2]
@@ -284,11 +320,24 @@ def render_program(prog, rng, style=None):
     p_comment = style.get("comments", 0.2)
     p_blank = style.get("blanks", 0.15)
     out = []
-    for s in prog:
+    for si, s in enumerate(prog):
         if rng.random() < p_blank:
             out.append(rng.choice(["", "   ", "\t", "!" + rng.choice(COMMENTS), "  ! " + rng.choice(COMMENTS)]))
         text = recase(render_stmt(s, rng), rng, case if case != "per_stmt" else rng.choice(["lower", "upper", "mixed"]))
         pieces = [text]
+        if REPAIRED["F41"] and si == len(prog) - 1 and s[0] == "def" and rng.random() < 0.6:
+            # a continuation mark on the last lines of the file (finding F41, repaired): the last definition ends with a comma
+            # (neutral for a definition: its property list is scanned by pattern) and is usually cut at one of its commas, so
+            # that a visited line runs into the end of the file still ending with the delimiter
+            text += (rng.choice(["", " "]) if (s[3] or REPAIRED["F40"]) else "") + ","
+            pieces = [text]
+            _style_count("style_trailing_comma_on_last_statement")
+            cuts = [j + 1 for j, c in enumerate(text[:-1]) if c == ","]
+            if cuts and rng.random() < 0.8:
+                j = rng.choice(cuts)
+                if text[:j].strip() and text[j:].strip():
+                    pieces = [text[:j], text[j:]]
+                    _style_count("style_trailing_continuation_over_last_lines")
         while rng.random() < p_cont and len(pieces) < 6:
             i = rng.randrange(len(pieces))
             t = pieces[i]
@@ -307,8 +356,9 @@ def render_program(prog, rng, style=None):
                 if not b.strip() or not a.strip():
                     continue
                 # white space in front of the mark stays in the statement: only where white space is neutral
-                roomy = (a[-1:].isspace() or b[:1].isspace() or a[-1:] in ",=(" or b[:1] in "=)") and not (
-                    b.lstrip().startswith(",") and not a[-1:].isspace())
+                # (white space in front of a comma -- the first one of a definition included -- is neutral once F40 is repaired)
+                roomy = (a[-1:].isspace() or b[:1].isspace() or a[-1:] in ",=(" or b[:1] in "=)" or (REPAIRED["F40"] and b[:1] == ",")) and (
+                    REPAIRED["F40"] or not (b.lstrip().startswith(",") and not a[-1:].isspace()))
                 mark = rng.choice(["&", " &", "  &"]) if roomy else "&"
                 pieces[i:i + 1] = [a + mark, b]
         for n, p in enumerate(pieces):
@@ -377,7 +427,7 @@ def gen_program(rng, flavour, size=8, depth=3, nest=5):
     """A well-formed program: returns dict(flavour, root, prog).  Statement order is a valid execution order in which
     lines may precede the elements they contain (lines are resolved at conversion time) but parents / read attributes /
     variables precede their uses."""
-    table = TABLES[flavour]
+    table = tables(flavour)
     used = set()
     env = {"vars": [], "attrs": []}
     prog = []
@@ -506,7 +556,7 @@ def gen_malformed(rng, flavour):
     """A program that the importer must reject (or, for some kinds, is merely unusual): returns (case, kind)."""
     case = gen_program(rng, flavour, size=5, depth=2, nest=3)
     prog = case["prog"]
-    table = TABLES[flavour]
+    table = tables(flavour)
     kind = rng.choice(["unknown_property", "cyclic_line", "missing_use" if flavour == "bmad" else "missing_root", "undefined_member",
                        "division_by_zero", "missing_required", "undefined_variable", "sqrt_negative"])
     root_line = [s for s in prog if s[0] == "line" and s[1] == case["root"]][-1]
